@@ -58,6 +58,15 @@ class SConst(Static):
         self.value = value
 
 
+class SDict(Static):
+    """python mapping known at check time (reflected registry): key (str | None) -> Static"""
+    def __init__(self, mapping):
+        self.mapping = dict(mapping)
+
+    def __repr__(self):
+        return 'SDict(%s)' % sorted(map(str, self.mapping))
+
+
 class SIter(Static):
     """abstract iterable: length term + element function (index term -> V)"""
     def __init__(self, n, elem, kind='seq'):
